@@ -275,7 +275,12 @@ func newWorld(plans []Plan, replay bool, conns int) (*world, error) {
 }
 
 // op runs goroutine gi's operation and returns its result class.
-func (w *world) op(gi int) string {
+func (w *world) op(gi int) (res string) {
+	defer func() {
+		if r := recover(); r != nil {
+			res = fmt.Sprintf("panic:%v", r)
+		}
+	}()
 	p := w.plans[gi-1]
 	ctx := context.WithValue(context.Background(), gidKey{}, gi)
 	ctx = context.WithValue(ctx, recdrv.CtxKey{}, fmt.Sprintf("g%d", gi))
